@@ -234,9 +234,13 @@ def observe(src, ev):
         with open(p, newline='', encoding='utf-8') as f:
             return ('str', f.read())
     if ev == 'write_to':
-        out = io.StringIO(newline='')
-        c.write_to(out)
-        return ('str', out.getvalue())
+        # a real file, as every caller inside exactly passes (a program-backed source hands it to the child process, which needs a descriptor)
+        p = str(world.get().ext / 'write-to-target.txt')
+        with open(p, 'w+', newline='', encoding='utf-8') as out:
+            c.write_to(out)
+            out.flush()
+            out.seek(0)
+            return ('str', out.read())
     raise ValueError(ev)
 
 
